@@ -40,6 +40,11 @@ bool decode_frame(const std::string &bytes, Frame &f) {
         f.cookie.assign((const char *)val, len);
     }
   }
+  {  // a datagram that carries more than one message parses (the parser stops after the counted records)
+    unsigned char *wb = nullptr;
+    size_t         wl = 0;
+    if (ares_dns_write(rec, &wb, &wl) == ARES_SUCCESS) { f.mlen = wl; ares_free_string(wb); }
+  }
   ares_dns_record_destroy(rec);
   return true;
 }
